@@ -2,7 +2,7 @@ SPECIFICATION Spec
 CONSTANTS
   Users = {"alice"}
   Passwords = {"p1", "p2", "p3"}
-  Servers = {1, 2}
+  Servers = {1}
   AsBuilt = {}
 INVARIANT AcceptedOnlyWhenAllowed
 PROPERTIES DirectoryIsFinal RejectEvicts
